@@ -10,6 +10,8 @@
 //	             quadrature of mean/sd; big-number path; ReadAndAdd law; operation sequences over level views
 //	largering.go every sampler kind at N = 2^10 .. 2^17 on two moduli (specification sampler, twin sampler, support, exact H,
 //	             moments): faults that depend on the ring degree
+//	refused.go   what a refused call leaves behind: Expand with every kind of illegal buffer then a legal Expand on the same
+//	             key; every sampler after an illegal receiver / level; (encryptor.go: refused EncryptZero in the mask stream)
 //	repro.go     KeyedPRNG equal keys / Reset / every one-bit key flip; samplers on keyed generators; SampleCRP;
 //	             EvaluationKey.Expand
 package main
@@ -75,6 +77,7 @@ func scenarios(tier string) []engine.Scenario {
 	for first := range encOps {
 		scs = append(scs, encryptorMaskStreamScenario(first, encDepth))
 	}
+	scs = append(scs, expandRefusedScenario(), samplerRefusedScenario())
 	for _, logN := range lrLogNs(thorough) {
 		for _, d := range lrDists {
 			scs = append(scs, largeRingScenario(logN, d))
@@ -155,6 +158,16 @@ func main() {
 					e = append(e, fmt.Sprintf("large-ring=2^%d/%s", logN, d.name))
 				}
 			}
+			for _, k := range expandBufKinds {
+				e = append(e, "expand-first-call="+k)
+			}
+			for _, k := range refusedCalls {
+				e = append(e, "refused-call="+k)
+			}
+			for _, k := range refusedSamplerKinds {
+				e = append(e, "refused-call-sampler="+k)
+			}
+			e = append(e, "refused-call-outcome=panic")
 			e = append(e, "ternary-ky=0.6667", "ternary-ky=0.2500", "ternary-half=tiny", "ternary-half=mixed")
 			return e
 		},
